@@ -262,7 +262,11 @@ func (g *Gen) Valid() *Req {
 		if r.Bool(0.2) {
 			entry["disabled"] = false
 		}
-		if r.Bool(0.2) {
+		if g.O.CoinFlips && r.Bool(0.3) {
+			pr := Round2(r.Float64())
+			entry["applyProbability"] = pr
+			gb.HasProb, gb.Prob = true, pr
+		} else if r.Bool(0.2) {
 			entry["applyProbability"] = 1.0
 			gb.HasProb, gb.Prob = true, 1
 		} else {
